@@ -1618,6 +1618,8 @@ func (d *decoderSimpleBytes) kInterfaceNaked(f *decFnInfo) (rvn reflect.Value) {
 			} else {
 				rvn = reflect.New(bfn.rt)
 				if bfn.ext == SelfExt {
+
+					bytes = d.sideDecodeInput(bytes, d.attachState(!d.bytes))
 					sideDecode(d.hh, &d.h.sideDecPool, func(sd decoderI) { oneOffDecode(sd, rv2i(rvn), bytes, bfn.rt, true) })
 				} else {
 					bfn.ext.ReadExt(rv2i(rvn), bytes)
@@ -3532,11 +3534,12 @@ func (d *simpleDecDriverBytes) DecodeTime() (t time.Time) {
 }
 
 func (d *simpleDecDriverBytes) DecodeExt(rv interface{}, basetype reflect.Type, xtag uint64, ext Ext) {
-	xbs, _, _, ok := d.decodeExtV(ext != nil, xtag)
+	xbs, _, state, ok := d.decodeExtV(ext != nil, xtag)
 	if !ok {
 		return
 	}
 	if ext == SelfExt {
+		xbs = d.d.sideDecodeInput(xbs, state)
 		sideDecode(d.h, &d.h.sideDecPool, func(sd decoderI) { oneOffDecode(sd, rv, xbs, basetype, true) })
 	} else {
 		ext.ReadExt(rv, xbs)
@@ -5396,6 +5399,8 @@ func (d *decoderSimpleIO) kInterfaceNaked(f *decFnInfo) (rvn reflect.Value) {
 			} else {
 				rvn = reflect.New(bfn.rt)
 				if bfn.ext == SelfExt {
+
+					bytes = d.sideDecodeInput(bytes, d.attachState(!d.bytes))
 					sideDecode(d.hh, &d.h.sideDecPool, func(sd decoderI) { oneOffDecode(sd, rv2i(rvn), bytes, bfn.rt, true) })
 				} else {
 					bfn.ext.ReadExt(rv2i(rvn), bytes)
@@ -7310,11 +7315,12 @@ func (d *simpleDecDriverIO) DecodeTime() (t time.Time) {
 }
 
 func (d *simpleDecDriverIO) DecodeExt(rv interface{}, basetype reflect.Type, xtag uint64, ext Ext) {
-	xbs, _, _, ok := d.decodeExtV(ext != nil, xtag)
+	xbs, _, state, ok := d.decodeExtV(ext != nil, xtag)
 	if !ok {
 		return
 	}
 	if ext == SelfExt {
+		xbs = d.d.sideDecodeInput(xbs, state)
 		sideDecode(d.h, &d.h.sideDecPool, func(sd decoderI) { oneOffDecode(sd, rv, xbs, basetype, true) })
 	} else {
 		ext.ReadExt(rv, xbs)
